@@ -5,14 +5,21 @@ Import ListNotations.
 Open Scope Z_scope.
 
 (* threshold 2, recovery timeout 10, cache on (ttl 1000), AND gate, cost 10 *)
-Definition cfgA := mkCfg true 2 10 true 1000 GAnd 10 false.
-Definition cfgLegacy := mkCfg true 2 10 true 1000 GAnd 10 true.
-Definition cfgOff := mkCfg false 1 10 false 1000 GAnd 10 false.
+Definition cfgA := mkCfg true 2 10 true 1000 GAnd 10 false false.
+Definition cfgLegacy := mkCfg true 2 10 true 1000 GAnd 10 true false.
+Definition cfgOff := mkCfg false 1 10 false 1000 GAnd 10 false false.
+(* OR gate, current rule / rule of 044cd88..3c979ee *)
+Definition cfgOr := mkCfg true 2 10 false 1000 GOr 10 false false.
+Definition cfgOrInterim := mkCfg true 2 10 false 1000 GOr 10 false true.
+Definition cfgExecPrio := mkCfg true 1 10 false 1000 GExecPrio 10 false false.
 
 Definition reqS p := mkReq p (Returns ZExecute) (Returns YPermit) 0.   (* success *)
 Definition reqB p := mkReq p (Returns ZExecute) (Returns YBlock) 0.    (* assessor blocks *)
 Definition reqF p := mkReq p (Returns ZFailure) (Returns YPermit) 0.   (* executor FAILURE *)
 Definition reqX p := mkReq p Raises (Returns YPermit) 3.               (* executor raises after 3 *)
+Definition reqBB p := mkReq p (Returns ZBlock) (Returns YBlock) 0.     (* both agents BLOCK *)
+Definition reqK p := mkReq p (Returns ZBlock) (Returns YPermit) 0.     (* executor BLOCK *)
+Definition reqFB p := mkReq p (Returns ZFailure) (Returns YBlock) 0.   (* executor FAILURE, assessor BLOCK *)
 
 (* the breaker after two failures: OPEN, last failure at time 0 *)
 Definition s_open := fst (run_ops cfgA init [Run (reqF 1); Run (reqX 2)]).
@@ -79,7 +86,7 @@ Example ex_probe_failure :
   failureb o = true /\ circ (br s') = Open /\ last_failure (br s') = Some 16 /\ now s' = 16 /\
   trips (br s') = 2 /\ fcount (br s') = 3 /\
   snd (run_ops cfgA s' [Tick 9; Run (reqS 5)]) = [res_circuit_open] /\
-  snd (run_ops cfgA s' [Tick 10; Run (reqS 5)]) = [res_ok].
+  map r_action (snd (run_ops cfgA s' [Tick 10; Run (reqS 5)])) = [ASuccess].
 Proof. vm_compute. repeat split; reflexivity. Qed.
 
 (* c08_blocks_not_failures: blocks in CLOSED, and a blocked probe *)
@@ -109,7 +116,7 @@ Proof. vm_compute. auto. Qed.
 (* c08_reset_closes_and_clears *)
 Example ex_reset :
   let '(s', rs) := run_ops cfgA s_open [Reset; Run (reqS 9)] in
-  circ (br s_open) = Open /\ rs = [res_ok] /\ circ (br s') = Closed /\ fcount (br s') = 0.
+  circ (br s_open) = Open /\ map r_action rs = [ASuccess] /\ circ (br s') = Closed /\ fcount (br s') = 0.
 Proof. vm_compute. auto. Qed.
 
 (* the repaired classification on the witness of the known defect *)
@@ -119,13 +126,54 @@ Example ex_five_failures_fixed :
   map r_action rs = [AFailure; AFailure; ACircuitOpen; ACircuitOpen; ACircuitOpen].
 Proof. vm_compute. auto. Qed.
 
+(* intentional blocks under the other gate logics: OR "both agents rejected"
+   (success=False), EXECUTOR_PRIORITY executor BLOCK -> "signal mismatch" *)
+Example ex_blocks_or :
+  let '(s', rs) := run_ops cfgOr init [Run (reqBB 1); Run (reqBB 2); Run (reqBB 3)] in
+  Forall (fun r => blockb r = true) rs /\ map r_success rs = [false; false; false] /\
+  fcount (br s') = 0 /\ circ (br s') = Closed /\ zcalls s' = 3.
+Proof. vm_compute. repeat split; repeat constructor. Qed.
+
+Example ex_blocks_exec_prio :
+  let '(s', rs) := run_ops cfgExecPrio init [Run (reqK 1); Run (reqK 2)] in
+  Forall (fun r => blockb r = true) rs /\ map r_action rs = [AError; AError] /\
+  fcount (br s') = 0 /\ circ (br s') = Closed.
+Proof. vm_compute. repeat split; repeat constructor. Qed.
+
+(* an executor FAILURE counts even when the assessor's BLOCK makes the result a
+   "successful" BLOCKED one (AND gate) *)
+Example ex_failure_behind_assessor_block :
+  let '(s', rs) := run_ops cfgA init [Run (reqFB 1); Run (reqFB 2)] in
+  Forall (fun r => failureb r = true) rs /\ map r_action rs = [ABlocked; ABlocked] /\
+  map r_success rs = [true; true] /\ circ (br s') = Open /\ fcount (br s') = 2.
+Proof. vm_compute. repeat split; repeat constructor. Qed.
+
+(* Rule of 044cd88..3c979ee ([interim = true]): a blocked result was skipped only
+   when it was also successful.  Under the OR gate two requests that both agents
+   BLOCK ("Both agents rejected", success=False) were counted as failures and
+   opened the breaker with threshold 2: c08_blocks_not_failures and
+   c08_open_implies_threshold_reached fail without [interim c = false]. *)
+Lemma c08_interim_blocks_counted_refuted :
+  exists c ops s' rs,
+    interim c = true /\ legacy c = false /\
+    requests_only ops /\ run_ops c init ops = (s', rs) /\
+    Forall (fun r => blockb r = true) rs /\ count_failures rs = 0 /\
+    fcount (br s') = 2 /\ circ (br s') = Open /\ trips (br s') = 1 /\ 1 <= threshold c.
+Proof.
+  exists cfgOrInterim, [Run (reqBB 1); Run (reqBB 2)].
+  eexists. eexists.
+  split; [reflexivity|]. split; [reflexivity|]. split; [repeat constructor|].
+  split; [vm_compute; reflexivity|]. split; [repeat constructor|].
+  vm_compute. repeat split; auto; discriminate.
+Qed.
+
 (* Pre-repair classification ([legacy = true]): every blocked result, executor
    FAILUREs included, was skipped as an "intentional block".  Five executor
    failures with threshold 2 leave the breaker CLOSED with a count of 0, so
    c08_opens_after_n_consecutive_failures fails without [legacy c = false]. *)
 Lemma c08_legacy_failures_swallowed_refuted :
   exists c s ops s' rs,
-    legacy c = true /\ 1 <= threshold c /\ 0 <= fcount (br s) /\
+    legacy c = true /\ interim c = false /\ 1 <= threshold c /\ 0 <= fcount (br s) /\
     no_reset ops /\ run_ops c s ops = (s', rs) /\
     Forall (fun r => failureb r = true) rs /\
     threshold c <= Z.of_nat (length rs) /\
@@ -134,7 +182,8 @@ Proof.
   exists cfgLegacy, init,
     [Run (reqF 1); Run (reqF 2); Run (reqF 3); Run (reqF 4); Run (reqF 5)].
   eexists. eexists.
-  split; [reflexivity|]. split; [vm_compute; discriminate|]. split; [vm_compute; discriminate|].
+  split; [reflexivity|]. split; [reflexivity|].
+  split; [vm_compute; discriminate|]. split; [vm_compute; discriminate|].
   split; [repeat constructor|]. split; [vm_compute; reflexivity|].
   split; [repeat constructor|]. split; [vm_compute; discriminate|].
   vm_compute. auto.
